@@ -79,3 +79,26 @@ def runTrace (g : HookState) : Trace → HookState
     runTrace (g2.exit h) next
 
 end Quanto
+
+namespace Quanto
+
+/-- event view of the same state machine, for the correspondence: `enter id` / `exit` of the
+innermost open context (a propagating exception performs the exits of every enclosing context,
+innermost first, exactly like normal exits) -/
+inductive HookEvent where
+  | enter (id : Nat)
+  | exit
+  deriving Repr
+
+structure HookRun where
+  g : HookState
+  open_ : List (Nat × Nat)     -- handles of the open contexts, innermost first
+  deriving Repr
+
+def HookRun.step (r : HookRun) : HookEvent → HookRun
+  | .enter id => let (g', h) := r.g.enter id; ⟨g', h :: r.open_⟩
+  | .exit => match r.open_ with
+    | [] => r
+    | h :: rest => ⟨r.g.exit h, rest⟩
+
+end Quanto
